@@ -252,6 +252,24 @@ def gen_c16(tier, R):
     return out
 
 
+def gen_datefmt(tier, R):
+    """texts and explicit format strings for string_to_date / _time / _datetime: complete and incomplete formats (no year, no day, no seconds), fractional seconds, two-digit years,
+    month names, day of year, literal text, texts that do not fit - compared with chrono used directly (the result is a function of the two arguments alone)"""
+    pairs = [("24.12.", "%d.%m."), ("12-24", "%m-%d"), ("Dec 24", "%b %d"), ("358", "%j"), ("29.02.", "%d.%m."), ("2024-12-24", "%Y-%m-%d"), ("24.12.2024", "%d.%m.%Y"), ("24.12.24", "%d.%m.%y"),
+             ("2024-358", "%Y-%j"), ("2024", "%Y"), ("2024-12", "%Y-%m"), ("10:11:12", "%H:%M:%S"), ("10:11", "%H:%M"), ("10", "%H"), ("10:11:12.013", "%H:%M:%S%.3f"), ("10:11:12.5", "%H:%M:%S%.f"),
+             ("23:59:60", "%H:%M:%S"), ("12:00 PM", "%I:%M %p"), ("2024-12-24 10:11:12", "%Y-%m-%d %H:%M:%S"), ("2024-12-24T10:11:12.250", "%Y-%m-%dT%H:%M:%S%.3f"), ("24.12. 10:11", "%d.%m. %H:%M"),
+             ("2024-02-30", "%Y-%m-%d"), ("0001-01-01", "%Y-%m-%d"), ("9999-12-31 23:59:59", "%Y-%m-%d %H:%M:%S"), ("Tue, 24 Dec 2024", "%a, %d %b %Y"), ("Mon, 24 Dec 2024", "%a, %d %b %Y"),
+             ("x", "%Y"), ("", ""), ("2024", ""), ("", "%Y"), ("2024-12-24", "%Q"), ("2024-12-24 +0100", "%Y-%m-%d %z"), ("1734998400", "%s"), ("W52 2024 2", "W%W %Y %u")]
+    out = [f"(datefmt _ {s(t)} {s(f)})" for t, f in pairs]
+    for _ in range(200 if tier == 'quick' else 20000):
+        y, m, d = R.randint(1, 9999), R.randint(1, 12), R.randint(1, 31)
+        h, mi, sec, ms = R.randint(0, 24), R.randint(0, 60), R.randint(0, 60), R.randint(0, 999)
+        f, t = R.choice([("%Y-%m-%d", f"{y:04d}-{m:02d}-{d:02d}"), ("%d.%m.", f"{d:02d}.{m:02d}."), ("%m/%d/%y", f"{m:02d}/{d:02d}/{y % 100:02d}"), ("%H:%M:%S%.3f", f"{h:02d}:{mi:02d}:{sec:02d}.{ms:03d}"),
+                         ("%H:%M", f"{h:02d}:{mi:02d}"), ("%Y-%m-%d %H:%M:%S%.3f", f"{y:04d}-{m:02d}-{d:02d} {h:02d}:{mi:02d}:{sec:02d}.{ms:03d}"), ("%j %Y", f"{R.randint(1, 366):03d} {y:04d}")])
+        out.append(f"(datefmt _ {s(t)} {s(f)})")
+    return out
+
+
 # ---------------- C13 ----------------
 ORD_POOL = [num(x) for x in [0.0, -0.0, 1.0, -1.0, 9.0, 10.0, 2.5, INF, -INF, NAN, 5e-324, 1e300]] + \
            [s(t) for t in ["", "a", "b", "ab", "10", "9", " 9", "1e1", "nan", "inf", "-0", "é", "A", "true"]] + [b(True), b(False)] + \
@@ -389,6 +407,17 @@ def gen_c09(tier, R, off):
                 out.append(bi(off, n, [a, c]))
         for _ in range(200 if tier == 'quick' else 20000):
             out.append(bi(off, n, [R.choice(pool) for _ in range(R.choice([3, 3, 3, 4, 5]))]))
+    # the regex builtins on VALID patterns of every shape (groups that do not take part in a match, empty matches, anchors, classes) over a few haystacks, with replacements and limits
+    re_pats = ["(a)|(b)", "a(x)?b", "(\\d{4})-(\\d{2})(-\\d{2})?", "(a)|b", "((a)|(b))+", "(?:(a)|(b))c", "x*", "", "^", "$", "\\b", "(a*)(b*)", "[^a]", "a|", "(|a)", ".", "é?", "(?i)A(b)?", "(a)(b)?(c)?(d)?"]
+    re_hays = ["", "b", "ab", "2024-05", "aaa", "éa", "xyz", "a\nb"]
+    for n in names:
+        if n.startswith('re_'):
+            for h in re_hays:
+                for ptn in re_pats:
+                    out.append(bi(off, n, [s(h), s(ptn)]))
+                    if n == 're_replace':
+                        out.append(bi(off, n, [s(h), s(ptn), s("<$1>")]))
+                        out.append(bi(off, n, [s(h), s(ptn), s("-"), num(1.0)]))
     # through scripts
     for _ in range(4000 if tier == 'quick' else 200000):
         n = R.choice(names)
